@@ -45,7 +45,7 @@ COMPONENTS = {
 }
 TIERS = {
     "quick": {"budget_s": 90.0, "max_runs": 100000, "chunk": 1, "run_timeout": 600.0, "min_budget": 90.0, "selfcheck_runs": 3, "realbin_cfgs": 6},
-    "thorough": {"budget_s": 1200.0, "max_runs": 10_000_000, "chunk": 4, "run_timeout": 600.0, "min_budget": 240.0, "selfcheck_runs": 6, "realbin_cfgs": 60},
+    "thorough": {"budget_s": 1200.0, "max_runs": 10_000_000, "chunk": 2, "run_timeout": 3000.0, "min_budget": 240.0, "selfcheck_runs": 6, "realbin_cfgs": 60},
 }
 
 ENVS: list = []
@@ -232,6 +232,9 @@ def draw_config(ds, n_envs, quick: bool = False):
     if quick and c["method"] == "symplectic" and c["order"] >= 6:
         # cost guard of the quick tier: high-order symplectic steps are 10-40x dearer per step
         c["n_iter"], c["n_seeds"], c["max_steps"] = min(c["n_iter"], 2), min(c["n_seeds"], 4), min(c["max_steps"], 600)
+    elif c["method"] == "symplectic" and c["order"] >= 6:
+        # milder guard of the thorough tier (a run computes the map two or three times)
+        c["n_iter"], c["n_seeds"] = min(c["n_iter"], 3), min(c["n_seeds"], 6)
     return c
 
 
